@@ -51,3 +51,25 @@ def replay(cid, cfg, values, timeout=120):
         except (BrokenPipeError, OSError, ValueError):
             stop()
     return None
+
+
+def sympy_call(src, names, timeout=120):
+    """run the call expression on the real code with SymPy symbols; returns the result dict or None"""
+    for attempt in range(2):
+        if _proc is None or _proc.poll() is not None:
+            _start()
+        try:
+            _proc.stdin.write(json.dumps({'sympy': src, 'names': list(names)}) + '\n')
+            _proc.stdin.flush()
+            r, _, _ = select.select([_proc.stdout], [], [], timeout)
+            if not r:
+                stop()
+                return None
+            line = _proc.stdout.readline()
+            if not line:
+                stop()
+                continue
+            return json.loads(line)
+        except (BrokenPipeError, OSError, ValueError):
+            stop()
+    return None
